@@ -102,6 +102,16 @@ func H_sequence() {
 		e4, err := Compile("reverse(" + expr + ")")
 		if err == nil {
 			got3, ended3 = vDrain(e4.Select(navAt(doc, cur, attr)), max)
+			// the compiled reverse() and count() expressions serve a second use as well
+			again3, endedAgain3 := vDrain(e4.Select(navAt(doc, cur, attr)), max)
+			if !endedAgain3 || !vSameInts(got3, again3) {
+				sameAgain = false
+			}
+			if e3 != nil {
+				if c2, ok := e3.Evaluate(navAt(doc, cur, attr)).(float64); !ok || c2 != cnt {
+					sameAgain = false
+				}
+			}
 		}
 	})
 	vObserve("panic-class", cls)
